@@ -268,6 +268,38 @@ def copy_discipline(ctx, rep, R):
         rep.check(ok, R, key(f, c, "traded ladder copied once %s" % ("per strategy" if isolated else "per instance")),
                   f, c, where if ok else "a copy per order double counts passive liquidity; a shared copy across "
                                          "strategies lets one strategy's fills starve another")
+    # every live order's runner is looked up in the per-market analytics: entries are added when a runner is
+    # first seen ACTIVE and stay until the whole market is dropped - an entry removed in between makes the
+    # lookup raise for that runner's orders and the matching of the orders after it is skipped
+    from sa.kinds import MUTATORS, store_targets
+    mw = prog.cls("SimulatedMiddleware")
+    n_an = 0
+    for g in mw.methods.values():
+        names = {"market_analytics"} if ("market_analytics" in g.params or any(
+            utext(s2.targets[0]) == "market_analytics" for s2 in walk_nodes(g.node.body, ast.Assign))) else set()
+
+        def is_analytics(e):
+            while isinstance(e, ast.Subscript):
+                if utext(e.value) == "self.markets":
+                    return "market"
+                e = e.value
+            if isinstance(e, ast.Name) and e.id in names:
+                return "runner"
+            return "all" if utext(e) == "self.markets" else None
+        for c2 in walk_calls(g.node.body):
+            if isinstance(c2.func, ast.Attribute) and c2.func.attr in MUTATORS and is_analytics(c2.func.value):
+                n_an += 1
+                rep.check(c2.func.attr in ("setdefault", "update"), R,
+                          "%s() on the runner analytics in %s" % (c2.func.attr, key(g, c2)), g, c2,
+                          "analytics entries are only ever added while the market is live")
+        for s2 in walk_nodes(g.node.body, ast.Delete):
+            for t2 in s2.targets:
+                if isinstance(t2, ast.Subscript) and is_analytics(t2.value):
+                    n_an += 1
+                    whole = utext(t2.value) == "self.markets" and g.name == "remove_market"
+                    rep.check(whole, R, "deletion from the runner analytics in %s" % key(g, s2), g, s2,
+                              "only remove_market drops analytics, and only the whole market's")
+    rep.floor(R, "removals from the analytics registry (remove_market)", n_an, 1)
     # the analytics object itself is never handed to the matcher
     rep.check(not any("market_analytics[" in utext(c.args[1]) for c in sim_calls if len(c.args) > 1), R,
               key(f, None, "the matcher never consumes the shared analytics ladder itself"), f)
@@ -396,5 +428,9 @@ MUTANTS = [
          old="                if market_book.streaming_unique_id in strategy.stream_ids:",
          new="                if market_book.streaming_unique_id in strategy.stream_ids and not market.blotter.has_live_orders:",
          expect=["R3"], why="strategies skipped depending on other strategies' orders"),
+    dict(id="c13-analytics-popped", file="flumine/markets/middleware.py", func="SimulatedMiddleware.__call__",
+         old="                    runner_removals.append(_removal)\n",
+         new="                    runner_removals.append(_removal)\n                    market_analytics.pop((runner.selection_id, runner.handicap), None)\n",
+         expect=["R4"], why="the removed runner's orders make the lookup raise; later orders are not matched"),
 ]
 MUTANTS = [m for m in MUTANTS if not m.get("twin")]
